@@ -60,6 +60,9 @@ type c13Variant struct {
 	envGraf []string      // lines of a graft file named by GIT_GRAFT_FILE in the caller's environment
 	noRepl  bool          // GIT_NO_REPLACE_OBJECTS=1 in the caller's environment
 	shallow mrepo.ID      // content of .git/shallow ("" = none)
+	// wtRef: a per-worktree reference (refs/worktree/only) created in the linked
+	// worktree; only runs addressed through that worktree see it
+	wtRef mrepo.ID
 }
 
 func c13Variants(b c13Base, tier string) []c13Variant {
@@ -99,6 +102,7 @@ func c13Variants(b c13Base, tier string) []c13Variant {
 		vs = append(vs, c13Variant{name: "GIT_GRAFT_FILE in environment: " + k, envGraf: []string{graftLines[k]}})
 	}
 	vs = append(vs, c13Variant{name: "shallow", shallow: id["c1"]})
+	vs = append(vs, c13Variant{name: "per-worktree reference in the linked worktree", wtRef: id["orphan"]})
 	return vs
 }
 
@@ -236,6 +240,12 @@ func c13Case(sh *explore.Shard, bi int, b c13Base, v c13Variant, modes []c13Mode
 		herr("git worktree add: " + string(out))
 		return
 	}
+	if v.wtRef != "" {
+		if out, err := realgit.RunPlain(wt2, []string{"GIT_NO_REPLACE_OBJECTS=1"}, "update-ref", "refs/worktree/only", string(v.wtRef)); err != nil {
+			herr("git update-ref refs/worktree/only: " + string(out))
+			return
+		}
+	}
 	if len(v.grafts) > 0 {
 		os.MkdirAll(filepath.Join(gd, "info"), 0o755)
 		os.WriteFile(filepath.Join(gd, "info", "grafts"), []byte(strings.Join(v.grafts, "\n")+"\n"), 0o644)
@@ -265,6 +275,13 @@ func c13Case(sh *explore.Shard, bi int, b c13Base, v c13Variant, modes []c13Mode
 
 	sc := &gen.Scenario{Repo: &stored}
 	want := oracle.Compute(&stored, sc.Roots()).Numbers()
+	// what a run addressed through the linked worktree must see
+	storedWT := stored
+	storedWT.Refs = append([]mrepo.Ref(nil), stored.Refs...)
+	if v.wtRef != "" {
+		storedWT.SetRef("refs/worktree/only", v.wtRef)
+	}
+	wantWT := oracle.Compute(&storedWT, (&gen.Scenario{Repo: &storedWT}).Roots()).Numbers()
 	for _, args := range [][]string{{"--json", "--no-progress"}, {"-v", "--no-progress"}} {
 		var first *cli.Result
 		firstMode := ""
@@ -284,6 +301,29 @@ func c13Case(sh *explore.Shard, bi int, b c13Base, v c13Variant, modes []c13Mode
 			}
 			if res.Exit != 0 {
 				mk("error", fmt.Sprintf("exit %d: %s", res.Exit, tailBytes(res.Stderr, 400)))
+				continue
+			}
+			if v.wtRef != "" && m.name == "linked worktree" {
+				// this mode legitimately sees one more reference: judged against its own oracle
+				if args[0] == "--json" {
+					nums, _, err := parseV1(res.Stdout)
+					if err != nil {
+						mk("error", "invalid JSON: "+err.Error())
+						continue
+					}
+					var diffs []string
+					for _, k := range allNumericKeys() {
+						if nums[k] != wantWT[k] {
+							diffs = append(diffs, fmt.Sprintf("%s: reported %d, the linked worktree's references reach %d", k, nums[k], wantWT[k]))
+						}
+					}
+					if nums["reference_count"] != uint64(len(storedWT.Refs)) {
+						diffs = append(diffs, fmt.Sprintf("reference_count: reported %d, the linked worktree sees %d references", nums["reference_count"], len(storedWT.Refs)))
+					}
+					if len(diffs) > 0 {
+						mk("not-the-stored-objects", strings.Join(diffs, "; "))
+					}
+				}
 				continue
 			}
 			if first == nil {
@@ -322,6 +362,6 @@ func c13Case(sh *explore.Shard, bi int, b c13Base, v c13Variant, modes []c13Mode
 
 func init() {
 	Registry["C13"] = &Check{Level: "exploration", Worker: c13Worker, QuickBudget: 80 * time.Second, ThoroughBudget: 10 * time.Minute,
-		Rule:        "real binary + real git: 2 base repositories x {plain; every single replacement of a commit, tip commit, tree, subtree, blob, tag by an otherwise unreachable bigger/other object, with and without GIT_NO_REPLACE_OBJECTS in the caller's environment; every single graft (add a parent, drop all parents, redirect, give the root a parent) in .git/info/grafts and in a file named by GIT_GRAFT_FILE in the caller's environment; a shallow marker; thorough additionally replaces every reachable object in turn and grafts every commit in turn} x 9 addressing modes (top, subdirectory, inside .git, bare copy, linked worktree, GIT_DIR absolute from elsewhere, GIT_DIR relative, git -C <dir> sizer, git --git-dir=<d> sizer) x {JSON, verbose table}: stdout byte-identical across modes; numbers equal the oracle on the objects actually stored (refs/replace/* counting as ordinary references); shallow refused cleanly in every mode; plus, through fakegit's log, every git command of a run carries --no-replace-objects, GIT_GRAFT_FILE=/dev/null and the resolved GIT_DIR even when the caller's environment sets other values. non-trivial = every variant",
+		Rule:        "real binary + real git: 2 base repositories x {plain; every single replacement of a commit, tip commit, tree, subtree, blob, tag by an otherwise unreachable bigger/other object, with and without GIT_NO_REPLACE_OBJECTS in the caller's environment; every single graft (add a parent, drop all parents, redirect, give the root a parent) in .git/info/grafts and in a file named by GIT_GRAFT_FILE in the caller's environment; a shallow marker; a per-worktree reference (refs/worktree/only) in the linked worktree, which only runs addressed through that worktree must see; thorough additionally replaces every reachable object in turn and grafts every commit in turn} x 9 addressing modes (top, subdirectory, inside .git, bare copy, linked worktree, GIT_DIR absolute from elsewhere, GIT_DIR relative, git -C <dir> sizer, git --git-dir=<d> sizer) x {JSON, verbose table}: stdout byte-identical across modes; numbers equal the oracle on the objects actually stored (refs/replace/* counting as ordinary references); shallow refused cleanly in every mode; plus, through fakegit's log, every git command of a run carries --no-replace-objects, GIT_GRAFT_FILE=/dev/null and the resolved GIT_DIR even when the caller's environment sets other values. non-trivial = every variant",
 		Assumptions: []string{"git 2.39.5; the linked worktree is created with git worktree add (detached at the root commit)"}}
 }
